@@ -16,5 +16,13 @@ let dispatch = function
   | "dcs" -> let w = next_mat next_q in let ci = next_list next_z in p_pair (p_mat p_q) (p_mat p_q) (run_dcs w ci)
   | "gw" -> let w = next_mat next_q in let ci = next_list next_z in p_opt (p_pair p_ql p_ql) (run_gw w ci)
   | "gwr" -> let w = next_mat next_q in let ci = next_list next_z in p_pair p_ql p_ql (run_gw_repaired w ci)
+  | "gwb" -> let w = next_mat next_q in let ci = next_list next_z in let cp = next_list next_q in let cn = next_list next_q in
+      p_opt (p_pair p_ql p_ql) (run_gwb w ci cp cn)
+  | "dummyvar" -> let n = next_nat () in let cols = next_mat next_z in let ixs = next_mat next_nat in
+      p_pair (p_mat p_q) (p_pair p_nat p_nat) (run_dummyvar n cols ixs)
+  | "agree_stmt" -> let n = next_nat () in let cols = next_mat next_z in let ixs = next_mat next_nat in let b = next_nat () in
+      p_mat p_q (run_agreement_stmt n cols ixs b)
+  | "ls2ci_run" -> let zi = next_bool () in let ls = next_mat next_nat in p_opt (p_list p_nat) (ls2ci_run zi ls)
+  | "ci2ls_run" -> let ci = next_list next_z in p_list (p_list p_nat) (ci2ls_run ci)
   | f -> failwith ("unknown function " ^ f)
 let () = main dispatch
